@@ -7,6 +7,8 @@ lists x paths matching >= 1 non-root node (many per sequence, nested, negative
 indexes, the same node matched twice through a collector sum); delete steps
 are also taken inside the C03 edit histories.
 """
+import itertools
+
 from vkit import core, corpus, editrun, paths, refquery
 from vkit.props import C01
 
@@ -98,10 +100,20 @@ def plan(tier):
               "collector_sums": [c[0] for c in COLLECT]}
     shards = [(lo, min(len(DOCS), lo + 25))
               for lo in range(0, len(DOCS), 25)]
+    depth = 3 if tier == "quick" else 4
+    bounds["live_sessions"] = {
+        "seeds": SESSION_SEEDS, "menu": [
+            [op, paths.render(sg, "/"), v] for op, sg, v in SESSION_MENU],
+        "depth": depth,
+        "note": "every sequence of <= depth menu steps through ONE Processor "
+                "on ONE live document, lock-step with the model"}
+    shards += [("session", i, depth) for i in range(len(SESSION_SEEDS))]
     return shards, bounds
 
 
 def run_shard(shard):
+    if shard[0] == "session":
+        return session_family(shard[1], shard[2])
     lo, hi = shard
     st = core.Stats(ID)
     for di in range(lo, hi):
@@ -199,6 +211,139 @@ def merge_family(st):
         if bad:
             st.fail("delete|merge-key-document|reload", case,
                     "dump reloads to the same data", bad)
+
+
+# ------------------------------------------------------------ live sessions
+# One Processor object kept for a whole session on one live document (the way
+# yaml-set / a library user works): every sequence of up to `depth` steps.
+# A step is a delete, a set or a query through that same Processor; the model
+# is stepped from a deep copy of the state before the step.
+SESSION_SEEDS = [
+    "[p, q, r, s]",
+    "{a: [p, q, r, s], b: {a: x, b: y}}",
+    "[[p, q], [p, q], x]",
+    "{a: &A x, b: [*A, y, z], c: *A}",
+]
+SESSION_MENU = [
+    ("delete", (("idx", 0),), None), ("delete", (("idx", -1),), None),
+    ("delete", (("idx", 1),), None), ("delete", (("slice", 0, 2),), None),
+    ("delete", (("key", "a"), ("idx", 0)), None),
+    ("delete", (("key", "a"), ("idx", -1)), None),
+    ("delete", (("key", "a"), ("slice", 1, 3)), None),
+    ("delete", (("key", "b"), ("key", "a")), None),
+    ("delete", (("key", "b"), ("idx", 0)), None),
+    ("delete", (("idx", 0), ("idx", 0)), None),
+    ("delete", (("all",), ("idx", 0)), None),
+    ("delete", (("key", "c"),), None),
+    ("set", (("idx", 0),), "n"), ("set", (("key", "a"), ("idx", 0)), "n"),
+    ("set", (("key", "b"), ("key", "a")), "n"),
+    ("set", (("key", "a"),), "n"),
+    ("query", (("idx", 0),), None), ("query", (("key", "a"), ("idx", 0)), None),
+    ("query", (("trav",),), None),
+]
+
+
+def session_family(seed_index, depth):
+    from yamlpath import Processor
+    from vkit import qrun
+    st = core.Stats(ID)
+    text = SESSION_SEEDS[seed_index]
+    # steps which can never apply to this seed are dropped from its menu
+    root = corpus.load(text)
+    menu = [m for m in SESSION_MENU if m[0] == "query" or (
+        (m[0] == "delete" and model(root, m[1])[0] == "doc") or
+        (m[0] == "set" and editrun.model_set(root, m[1], m[2])[0] == "doc"))]
+    st.extra["session_menu_%d" % seed_index] = len(menu)
+    for n in range(1, depth + 1):
+        for seq in itertools.product(menu, repeat=n):
+            if seq[-1][0] == "query" and n > 1 and seq[-2][0] == "query":
+                continue
+            session_run(st, text, seq)
+    st.sample({"seed": text, "session": [
+        [op, paths.render(sg, "/"), v] for op, sg, v in menu[:3]]})
+    return st
+
+
+def session_run(st, text, seq):
+    from yamlpath import Processor
+    from vkit import qrun
+    from vkit.props import C03
+    st.evaluations += 1
+    doc = corpus.load(text)
+    proc = Processor(corpus.LOG, doc)
+    hist = []
+    for op, segs, val in seq:
+        ptext = paths.render(segs, "/")
+        hist.append([op, ptext, val])
+        case = {"doc": text, "op": "session", "session": list(hist),
+                "path": ptext, "segs": segs}
+        pre = editrun.fresh(doc)
+        st.transitions += 1
+        if op == "query":
+            try:
+                exp = refquery.flat_ids(refquery.ev(
+                    segs, refquery.root_ctx(doc)))
+            except (refquery.Unspecified, refquery.ExpectError):
+                continue
+            ncs = []
+            try:
+                for nc in proc.get_nodes(ptext, mustexist=True):
+                    ncs.append(nc)
+            except Exception:               # pylint: disable=broad-except
+                ncs = None
+            got = qrun.flat_ids(ncs) if ncs is not None else None
+            if (got or []) != exp:
+                st.fail("session|query|wrong-nodes", case,
+                        "%d nodes" % len(exp), "%r" % (
+                            None if got is None else len(got)))
+                return
+            if corpus.canon(doc, anchors=True) != corpus.canon(
+                    pre, anchors=True):
+                st.fail("session|query|changed-document", case,
+                        "document unchanged", "changed")
+                return
+            st.validated += 1
+            continue
+        if op == "delete":
+            mod = model(pre, segs)
+        else:
+            mod = editrun.model_set(pre, segs, val)
+            if mod[0] == "doc" and C03.dup_set_members(mod[1]):
+                return
+        if mod[0] == "unspecified":
+            st.extra["unspecified"] += 1
+            return
+        if op == "delete":
+            res, detail = editrun.apply_delete(doc, ptext, proc=proc)
+        else:
+            res, detail = editrun.apply_set(doc, ptext, val, proc=proc)
+        st.outcomes["session:" + res] += 1
+        got = corpus.canon(doc, anchors=True)
+        if mod[0] in ("nomatch", "error", "root"):
+            # nothing (deletable) is matched in this state: refused or a no-op,
+            # and the document stays as it is
+            if res == "crash" or got != corpus.canon(pre, anchors=True):
+                st.fail("session|%s|no-match-but-changed" % op, case,
+                        "document unchanged", "%s %s %r" % (
+                            res, detail, got)[:300])
+                return
+            continue
+        if res != "ok":
+            st.fail("session|%s|%s:%s" % (op, res, detail), case,
+                    "%d nodes" % mod[2], "%s %s" % (res, detail))
+            return
+        st.validated += 1
+        st.states += 1
+        st.sig("session", got)
+        if got != mod[1]:
+            st.fail("session|%s|wrong-result" % op, case,
+                    repr(mod[1])[:300], repr(got)[:300])
+            return
+    bad = editrun.reload_check(doc)
+    if bad:
+        st.fail("session|reload", {"doc": text, "op": "session",
+                                   "session": hist, "path": "", "segs": None},
+                "dump reloads to the same data", bad)
 
 
 def model(doc0, segs):
@@ -324,6 +469,13 @@ def check_delete(st, doc0, text, shp, segs, ptext):
 
 def replay(case):
     st = core.Stats(None)
+    if case.get("op") == "session":
+        seq = [(op, C01.tup(_segs_of(ptext)), val)
+               for op, ptext, val in case["session"]]
+        session_run(st, case["doc"], seq)
+        for lst in st.fails.values():
+            return lst[0]
+        return None
     if case.get("merge_case"):
         merge_family(st)
         for lst in st.fails.values():
@@ -340,6 +492,16 @@ def replay(case):
     return None
 
 
+def _segs_of(ptext):
+    for op, segs, _ in SESSION_MENU:
+        if paths.render(segs, "/") == ptext:
+            return segs
+    raise core.HarnessError("unknown session step %r" % ptext)
+
+
 def repro(case):
     from vkit.props import C03
+    if case.get("op") == "session":
+        return "# one Processor, steps in order: %r on %r" % (
+            case["session"], case["doc"])
     return C03.repro(case)
